@@ -491,6 +491,28 @@ impl Property for C16 {
                 }
                 let mut o = Outcome::pass(true, fnv(name.as_bytes()) ^ 0x5555).class("end-to-end");
                 o.evals = 2;
+                // the same name as a member of a tar archive: at the top level and below directories
+                if class.1 == Cont::None && name.is_ascii() && !name.is_empty() && name != "." && name != ".." {
+                    for (k, member) in [name.clone(), format!("var/log/{}", name)].iter().enumerate() {
+                        let tdir = sc.subdir(&format!("t{}", k));
+                        let tarf = match crate::containers::wrap(&crate::containers::Codec::Tar { format: 1, pos: 0, decoys: 0, mtime: 1_600_000_000, longname: false }, &content, &tdir, "logs", member) {
+                            Ok(f) => f,
+                            Err(e) => return Outcome::inconclusive(e),
+                        };
+                        let oc = run(&tarf);
+                        if oc.timed_out {
+                            return Outcome::inconclusive("timeout".into());
+                        }
+                        if !oc.ok01() || oc.panicked() {
+                            return Outcome::fail("crash", format!("tar member {:?}: status={:?} signal={:?} stderr={}", member, oc.status, oc.signal, oc.stderr_str()));
+                        }
+                        if oc.stdout != oa.stdout {
+                            return Outcome::fail("end-to-end-tar", format!("tar member {:?} (reference class {:?}) prints {} bytes, the plain name prints {} bytes", member, class, oc.stdout.len(), oa.stdout.len()));
+                        }
+                        o.evals += 1;
+                    }
+                    o = o.class("end-to-end-tar-member");
+                }
                 o
             }
             Case::Arbitrary(b) => {
